@@ -1,6 +1,7 @@
 import Verif.Model.SortRef
 import Verif.Model.Facts
 import Verif.Proofs.SortRef
+import Verif.Proofs.GatherPerm
 
 /-!
 # C07 — the order-sensitive functions of Flatten are deterministic
@@ -16,7 +17,7 @@ open SortRef
 
 /-- map-range loops of the Flatten code and why their order does not matter -/
 def discharged : List (String × String) := [
-  ("GatherOperations:pathItem", "results collected then sorted by key (sort.Sort); NOT discharged when two derived keys are equal: known finding D10"),
+  ("GatherOperations:pathItem", "results collected then sorted by key (sort.Sort): gatherOperations_order_independent; NOT discharged when two derived keys are equal: known finding D10"),
   ("GatherOperations:specDoc.Operations()", "same"),
   ("Name:an.references.allRefs", "each iteration is a membership test followed by UpdateRef at a distinct analyzer key: updates at distinct keys commute"),
   ("OpRefsByRef:oprefs", "re-indexing of a map by an injective key"),
@@ -59,5 +60,17 @@ theorem depthFirst_perm_of_input (ks : List String) (hn : ks.Nodup) :
     (depthFirst ks).Perm (ks.filter fun k => depthGroupOrder.contains (groupOf (keyParts k))) := by
   have _ := hn  -- not needed: `List.Perm` counts multiplicities
   exact Proofs.SortRef.depthFirst_perm_filter ks
+
+/-- `GatherOperations` ranges over the map of maps `specDoc.Operations()`: whatever the order in which the
+    operations are met (any permutation of them), the registered operations are the same — provided
+    the derived keys `ToGoName(method + " " + path)` tell the operations apart.  That proviso is
+    exactly what fails in the open finding D10 (`/a-b` and `/a_b` under the same method), where the Go
+    code is indeed not deterministic. -/
+theorem gatherOperations_order_independent (x : Flatten.Ext) {ops ops' : List (String × String × J)}
+    (hp : ops.Perm ops') (oprefs : List Flatten.OpRef)
+    (hm : ops.mapM (Proofs.GatherPerm.mkOpRef x) = .ok oprefs)
+    (hinj : ∀ a ∈ oprefs, ∀ b ∈ oprefs, a.key = b.key → a = b) :
+    Flatten.gatherFrom x ops' = Flatten.gatherFrom x ops :=
+  Proofs.GatherPerm.gatherFrom_perm x hp oprefs hm hinj
 
 end C07
